@@ -84,7 +84,10 @@ def m_map_indexed(f, it, **kw):
         yield f(i, x)
 
 
-def m_take(n, it, drain=False, **kw):
+def m_take(n, it, drain=False, push=False, **kw):
+    if n <= 0 and push:
+        # a transducer can only end a reduction from inside a step: (take 0) needs one input to say so
+        next(it, None)
     if n > 0:
         for i, x in enumerate(it):
             yield x
@@ -214,15 +217,18 @@ REFERENCE = {
 }
 
 
-def run_pipeline(stages, source, drain=False, distinct_same=eq):
-    """stages: [(name, model_param)], applied left to right (= comp order) to the iterator `source`."""
+def run_pipeline(stages, source, drain=False, distinct_same=eq, push=False):
+    """stages: [(name, model_param)], applied left to right (= comp order) to the iterator `source`.
+
+    push=True gives the demand of the same pipeline run as a transducer (elements are pushed, so a stage can stop the
+    process only when an input reaches it); the produced elements are the same, only (take 0) needs an input."""
     it = iter(source)
     for name, param in stages:
         fn, has_param = REFERENCE[name]
         if name == "distinct":
             it = fn(it, same=distinct_same)
         elif has_param:
-            it = fn(param, it, drain=drain)
+            it = fn(param, it, drain=drain, push=push)
         else:
             it = fn(it, drain=drain)
     return it
